@@ -55,11 +55,55 @@ func (e *Env) verifyLemma(lm *Lemma) (res *FuncResult) {
 			res.Fatal = fmt.Sprintf("%s:%d: unknown type %s", lm.File, lm.Line, v.Type)
 			return res
 		}
-		val := ft.freshVal("v$"+v.Name, t)
+		val := ft.freshInput("v$"+v.Name, t)
 		vars[v.Name] = &sv{v: val}
 		for i, l := range leavesOf(t) {
 			res.Params = append(res.Params, ModelVar{Label: v.Name + l.Path, Term: val.L[i], Needs: []string{val.L[i].T}})
 		}
+	}
+	// case splits: list of (label, condition)
+	type splitCase struct {
+		label string
+		cond  Term
+	}
+	cases := []splitCase{{"", tTrue}}
+	for _, sp := range lm.Splits {
+		f := strings.Fields(sp)
+		var next []splitCase
+		switch {
+		case len(f) == 1:
+			v, ok := vars[f[0]]
+			if !ok || len(v.v.L) != 1 || bvWidth(v.v.L[0].S) != 8 {
+				res.Fatal = fmt.Sprintf("%s:%d: split %s: need an 8-bit variable", lm.File, lm.Line, sp)
+				return res
+			}
+			for _, c := range cases {
+				for k := 0; k < 256; k++ {
+					next = append(next, splitCase{fmt.Sprintf("%s[%s=0x%02x]", c.label, f[0], k), mkAnd(c.cond, mkEq(v.v.L[0], bvInt(8, int64(k))))})
+				}
+			}
+		case len(f) == 2 && f[0] == "exp":
+			v, ok := vars[f[1]]
+			if !ok || len(v.v.L) != 1 || v.v.L[0].S != SF32 {
+				res.Fatal = fmt.Sprintf("%s:%d: split %s: need a float32 variable", lm.File, lm.Line, sp)
+				return res
+			}
+			// f = to_fp(bits) for a fresh bit pattern; classes by biased exponent field
+			bits := ft.c.Fresh("fbits$"+f[1], SBV(32))
+			ft.c.Assume(bits, mkEq(Term{SF32, "((_ to_fp 8 24) " + bits.T + ")"}, v.v.L[0]))
+			v.v.Bits = &bits
+			res.Params = append(res.Params, ModelVar{Label: f[1] + "#bits", Term: bits, Needs: []string{bits.T}})
+			for _, c := range cases {
+				for k := 0; k < 256; k++ {
+					ex := Term{SBV(8), "((_ extract 30 23) " + bits.T + ")"}
+					next = append(next, splitCase{fmt.Sprintf("%s[exp(%s)=%d]", c.label, f[1], k), mkAnd(c.cond, mkEq(ex, bvInt(8, int64(k))))})
+				}
+			}
+		default:
+			res.Fatal = fmt.Sprintf("%s:%d: malformed split %q", lm.File, lm.Line, sp)
+			return res
+		}
+		cases = next
 	}
 	for _, st := range lm.Steps {
 		sc := scope()
@@ -77,7 +121,9 @@ func (e *Env) verifyLemma(lm *Lemma) (res *FuncResult) {
 				res.Fatal = fmt.Sprintf("%s:%d: %v", st.C.File, st.C.Line, sc.err)
 				return res
 			}
-			fr.obligeAt(fr.cur.pc, "lemma", shortText(st.C.Src), token.NoPos, t)
+			for _, c := range cases {
+				fr.obligeAt(mkAnd(fr.cur.pc, c.cond), "lemma", shortText(st.C.Src)+c.label, token.NoPos, t)
+			}
 		case "let":
 			ex := st.C.E
 			if ex.Op != "call" {
@@ -87,6 +133,13 @@ func (e *Env) verifyLemma(lm *Lemma) (res *FuncResult) {
 			var args []*Val
 			var callee *ssa.Function
 			argExprs := ex.Args
+			if i := strings.Index(ex.Name, "."); i > 0 {
+				if _, isVar := vars[ex.Name[:i]]; isVar {
+					// x.M(args): method call on a lemma variable
+					argExprs = append([]*SExpr{{Op: "id", Name: ex.Name[:i]}}, argExprs...)
+					ex = &SExpr{Op: "call", Name: ex.Name[i:], Args: argExprs}
+				}
+			}
 			if strings.HasPrefix(ex.Name, ".") {
 				// method call: first arg is the receiver
 				recv := sc.eval(argExprs[0])
